@@ -5,6 +5,7 @@ import RbV.Lemmas.NWIdentity
 import RbV.Lemmas.PoaChain
 import RbV.Lemmas.PoaGrow
 import RbV.Lemmas.PoaAcyclic
+import RbV.Lemmas.PoaHistory
 /-!
 # C16 — partial-order alignment: exact on linear graphs, graph stays a growing DAG
 
@@ -129,22 +130,61 @@ theorem model_identity_readdition_keeps_nodes (x : List Nat) (es : Poa.Model.WEd
     (Poa.Model.addAlignment { labels := x, es := es } (Poa.Model.idOps x.length) x).labels = x :=
   Poa.Model.addAlignment_identity_labels x es hhead
 
-/-- **partial** (DESIGN [C]).  Full statement wanted: for every acyclic graph `g` and every operation list
-`ops` produced by the model's traceback on `g`, `addAlignment g ops seq` is acyclic.
-Proved: the conclusion for every operation list that *names nodes in increasing rank* (`bodyB`: each
-`Match(Some((_, p)))` lies above the rank bound of `prev`, with room for the nodes created in between; the
-inserted prefix `Ins(None)…` stays below the head) where `rk` is any rank function increasing along the old
-edges — `Ins(None)`, `Match(None)`, mismatches, clips, skipped nodes all covered.
-Missing: that `traceLoop` emits only such lists (it moves along edges, so the named nodes come in topological
-order).  In its place the driver evaluates the hypothesis on every observed list (`acyclicCert`, tag
-`acyclic-cert`), and the model's result is compared with the real dump (`drift-add`). -/
+/-- **the model's align-and-add keeps the graph a DAG** (DESIGN [C], full statement for `global`): for every
+graph with at least one node, end points in range and no directed cycle, every scoring and every query, the
+graph after `global(q)` + `add_to_graph()` of the model again has at least one node, end points in range and
+no directed cycle.  Proof: `topo` visits every node of a DAG after its predecessors (`topo_spec`), every cell
+of the DP table points to the same row, to the row of a predecessor, to row 0 or down the first column
+(`dpRows_tableOK`), so the traceback names nodes in strictly increasing topological rank (`traceLoop_bodyB`),
+and `add_alignment` along such a list admits a rank function again (`addAlignment_rankOK`). -/
+theorem model_align_add_preserves_acyclic (sc : Sc) (g : Poa.Model.G) (q : List Nat)
+    (hne : g.labels ≠ [])
+    (hwf : ∀ e ∈ g.es, e.1 < g.labels.length ∧ e.2.1 < g.labels.length)
+    (hac : ∀ v, ¬ Reach (plain g.es) v v) :
+    (Poa.Model.alignAdd sc g q).labels ≠ [] ∧
+    (∀ e ∈ (Poa.Model.alignAdd sc g q).es,
+      e.1 < (Poa.Model.alignAdd sc g q).labels.length ∧ e.2.1 < (Poa.Model.alignAdd sc g q).labels.length) ∧
+    ∀ v, ¬ Reach (plain (Poa.Model.alignAdd sc g q).es) v v :=
+  let h := Poa.Model.alignAdd_dag sc g q ⟨hne, hwf, hac⟩
+  ⟨h.ne, h.wf, h.acyclic⟩
+
+/-- the same for the traceback started in *any* cell with *any* fuel (so the statement does not depend on the
+loop bound of the model, nor on which row `last` is) -/
+theorem model_traceback_add_preserves_acyclic (sc : Sc) (g : Poa.Model.G) (q : List Nat) (f i j : Nat)
+    (hne : g.labels ≠ [])
+    (hwf : ∀ e ∈ g.es, e.1 < g.labels.length ∧ e.2.1 < g.labels.length)
+    (hac : ∀ v, ¬ Reach (plain g.es) v v) :
+    ∀ v, ¬ Reach (plain (Poa.Model.addAlignment g
+      (Poa.Model.traceLoop (Poa.Model.dpRows sc g.labels g.es q) f i j []) q).es) v v :=
+  (Poa.Model.traceback_add_dag sc g q ⟨hne, hwf, hac⟩ f i j).acyclic
+
+/-- **"after any series of additions"**, for the model, unconditionally: start from the chain built from a
+non-empty reference `x` (`Poa::from_string`) and apply any number of align-and-add steps, each with its own
+scoring and query — the graph has its edge end points in range and no directed cycle. -/
+theorem model_history_acyclic (x : List Nat) (hx : x ≠ []) (steps : List (Sc × List Nat)) :
+    (∀ e ∈ (Poa.Model.history x steps).es,
+      e.1 < (Poa.Model.history x steps).labels.length ∧ e.2.1 < (Poa.Model.history x steps).labels.length) ∧
+    ∀ v, ¬ Reach (plain (Poa.Model.history x steps).es) v v :=
+  let h := Poa.Model.history_dag x hx steps
+  ⟨h.wf, h.acyclic⟩
+
+/-- **partial** for the alignment modes whose DP is not mirrored (`semiglobal`, `local`, `custom`, narrow
+`global_banded`).  Full statement wanted: for every acyclic graph and every operation list produced by *any*
+of the aligner's modes, `addAlignment g ops seq` is acyclic.  Proved here: the conclusion for every operation
+list that *names nodes in increasing rank* (`bodyB`: each `Match(Some((_, p)))` lies above the rank bound of
+`prev`, with room for the nodes created in between; the inserted prefix `Ins(None)…` stays below the head)
+where `rk` is any rank function increasing along the old edges — `Ins(None)`, `Match(None)`, mismatches,
+clips, skipped nodes all covered.  For `global` the hypothesis is discharged (`model_align_add_preserves_acyclic`).
+Missing for the other modes: a model of their tables (clip cells) and the proof that its traceback emits such
+lists.  In its place the driver evaluates the hypothesis on every observed list of every mode (`acyclicCert`,
+tag `acyclic-cert`), and the model's result is compared with the real dump (`drift-add`). -/
 theorem model_add_preserves_acyclic_partial (g : Poa.Model.G) (rk : Nat → Nat) (ops : List POp) (seq : List Nat)
     (hrk : ∀ e ∈ g.es, e.1 < g.labels.length ∧ e.2.1 < g.labels.length ∧ rk e.1 < rk e.2.1)
     (hhead : (Poa.Model.topo g.labels.length g.es).headD 0 < g.labels.length)
     (hbody : Poa.Model.bodyB rk g.labels.length ((Poa.Model.topo g.labels.length g.es).headD 0)
       (rk ((Poa.Model.topo g.labels.length g.es).headD 0)) false ops = true) :
     ∀ v, ¬ Reach (plain (Poa.Model.addAlignment g ops seq).es) v v :=
-  Poa.Model.addAlignment_acyclic_partial g rk ops seq hrk hhead hbody
+  Poa.Model.addAlignment_acyclic_of_bodyB g rk ops seq hrk hhead hbody
 
 /-- the executable certificate (`topo` position scaled by `|ops|+1` as rank function) implies that the
 model's updated graph has no cycle -/
@@ -172,6 +212,9 @@ example : Poa.Model.acyclicCert { labels := [65, 65, 65], es := [(0, 1, 1), (1, 
 -- naming nodes against the order is refused
 example : Poa.Model.acyclicCert { labels := [65, 65, 65], es := [(0, 1, 1), (1, 2, 1)] }
     [.m none, .m (some (1, 2)), .m (some (0, 1))] = false := by decide
+-- one history step on the chain ACG with the query ATG: a branch node is created, the result is a DAG
+example : (Poa.Model.history [65, 67, 71] [(exSc, [65, 84, 71])]).labels = [65, 67, 71, 84] := by decide
+example : plain (Poa.Model.history [65, 67, 71] [(exSc, [65, 84, 71])]).es = [(0, 1), (1, 2), (0, 3), (3, 2)] := by decide
 -- a DAG with a bubble is accepted, a 3-cycle is not
 example : isAcyclic 4 [(0, 1), (1, 2), (0, 3), (3, 2)] = true := by decide
 example : isAcyclic 3 [(0, 1), (1, 2), (2, 0)] = false := by decide
